@@ -104,10 +104,37 @@ func c19(e *Env) {
 	e.c19Concatenator(pts["components.Concatenator"])
 }
 
-// selfRecursive: the library function reachable from run that calls itself and takes a map (the combiner).
+// treeFuncs: the library functions in the expanded call tree of run, goroutines started in it included
+// (statically resolved callees only: independent of the call graph's treatment of interface calls).
+func (e *Env) treeFuncs(run *ssa.Function) map[*ssa.Function]bool {
+	out := map[*ssa.Function]bool{}
+	var visit func(fn *ssa.Function)
+	visit = func(fn *ssa.Function) {
+		if fn == nil || out[fn] || !e.P.IsLib(fn) || fn.Blocks == nil {
+			return
+		}
+		out[fn] = true
+		g := e.XG(fn)
+		if g == nil {
+			return
+		}
+		for _, n := range g.Nodes {
+			if n.Callee != nil && e.P.IsLib(n.Callee) && n.Callee.Blocks != nil && !n.IsGo {
+				out[n.Callee] = true
+			}
+			if n.IsGo && n.Call != nil {
+				visit(funcOf(n.Call.Value))
+			}
+		}
+	}
+	visit(run)
+	return out
+}
+
+// selfRecursive: the library function in run's call tree that calls itself and takes a map (the combiner).
 func (e *Env) selfRecursive(run *ssa.Function) *ssa.Function {
 	var best *ssa.Function
-	for fn := range e.P.Reachable(run) {
+	for fn := range e.treeFuncs(run) {
 		if !e.P.IsLib(fn) || fn.Blocks == nil {
 			continue
 		}
@@ -372,8 +399,9 @@ func (e *Env) c19Selector(run *ssa.Function) {
 	sy := e.symbolizer()
 	// the function(s) receiving on the in-port channels, anywhere in Run's call graph (goroutines included)
 	n0 := 0
+	tree := e.treeFuncs(run)
 	for _, rh := range p.LibFuncs {
-		if !p.Reachable(run)[rh] && rh != run {
+		if !tree[rh] {
 			continue
 		}
 		has := false
